@@ -29,7 +29,7 @@ from ..drivers import audiodrv
 PID = 'E04'
 NW = 16
 # per worker: beeper API cases, AY API cases, skool2html runs (3-6 #AUDIO macros each), trace.py runs
-SIZES = {'quick': (70, 48, 3, 3), 'thorough': (1500, 1000, 24, 24)}
+SIZES = {'quick': (70, 48, 3, 3), 'thorough': (3200, 2200, 48, 48)}
 MC = {'quick': (('AudioMC', 'Audio_mcq.cfg', 20000), ('AudioAYMC', 'AudioAY_mcq.cfg', 20000)),
       'thorough': (('AudioMC', 'Audio_mc.cfg', 300000), ('AudioAYMC', 'AudioAY_mc.cfg', 300000))}
 DROP = ('cls', 'over', 'is128', 'macro', 'kind', 'route')
@@ -216,7 +216,8 @@ def run(tier):
         rep.model_violation(r, cfg.replace('.cfg', ''))
         if r.distinct < floor:
             raise MachineryError('%s explored only %d states' % (cfg, r.distinct))
-    vacuity(cases, tags, rep)
+    if not rep.violations:                  # a wholesale failure (every file invalid) must be reported as such, not as a vacuous run
+        vacuity(cases, tags, rep)
     for c in cases:
         rep.count((c['k'], c['route'], tuple(c['cls']), tuple(sorted(c['over'])), c['opt'].get('mode', 0), c['opt'].get('cmio', 0), c['opt'].get('ints', 0)))
     for c in cases[:2] + [c for c in cases if c['route'] == 'macro'][:2] + [c for c in cases if c['route'] == 'trace'][:2]:
